@@ -88,3 +88,15 @@ CLAIMS["C11"] = ("effect classification of every list-mutating method + CFG must
  "update and a length/`_data` update (or a re-deriving call); both views receive the same object; no ==-based list operation is used "
  "on AVPs (DiameterAVP.__eq__ compares encodings); pop/cleanup subtract what append added; bulk data updates end with refresh(). "
  "Freshness of the `__N` name suffix across histories is not decided.", "DESIGN.md section 4, C11")
+CLAIMS["C03"] = ("lower-bound dataflow for decoder loop progress, escape-set fixpoint over the resolved call graph with an explicit may-raise/hazard model and exception-type-aware CFG edges, lockset dataflow for acquire/release pairing on all exits",
+ "Both decoder loops advance by an amount with a proven lower bound >= 1 on every path; the escape sets of DiameterHeader.load / "
+ "DiameterAVP.load / DiameterMessage.load (closed over all 207 registry-dispatched constructors) contain only library error classes; "
+ "the receive worker's handlers cover the decoder's escape set and no input-driven exception reaches the top of the three connection "
+ "thread roots; every lock region of the code base releases its lock on every normal and exceptional exit. Necessary conditions; "
+ "memory growth and liveness as a whole are not decided; the may-raise model is the trusted base.", "DESIGN.md section 4, C03")
+CLAIMS["C08"] = ("interprocedural must-held lockset dataflow + blocking-primitive table (R-BLOCK), stop-flag/event pairing (R-WAKE), loop-exit and must-pass rules on the close/start paths",
+ "No untimed blocking primitive is reachable while a connection-layer lock is held (guarded Queue.get idioms are verified, not "
+ "assumed); every writer of a stop flag that ends an untimed Event.wait loop also sets the event on all its paths; every worker loop "
+ "reads a flag the close path assigns; close() releases selector registration and socket(s) on every non-exceptional path; "
+ "Diameter.start rebuilds association and state machine and resets the stop flag. Thread termination under all interleavings is not "
+ "decided.", "DESIGN.md section 4, C08")
